@@ -62,7 +62,84 @@ fn check_replace(variant: usize) -> Option<String> {
     None
 }
 
+// ---- the model tool: dump the dictionary, replace it with the unmodified dump (bounded, process level) ----
+const CLI_WORDS: &[(&str, &str)] = &[
+    ("猫", "名詞"), ("火星", ""), ("a,b", "comma, in word and comment"), ("\"q\"", "quote \"x\""), (" a", " leading space"), ("b ", "trailing space "),
+    ("a b", "inner  spaces"), ("tab\tx", "tab\there"), ("改\n行", "line\nbreak"), ("👨‍👩‍👧", "zwj"), ("x", " "), ("'", "'"),
+];
+
+fn run_tool(args: &[String]) -> Result<(), String> {
+    let dir = std::env::var("VP_CLI_DIR").map_err(|_| "VP_CLI_DIR not set".to_string())?;
+    let o = std::process::Command::new(std::path::Path::new(&dir).join("manipulate_model")).args(args).output().map_err(|e| e.to_string())?;
+    if o.status.success() { Ok(()) } else { Err(format!("exit {:?}: {}", o.status.code(), String::from_utf8_lossy(&o.stderr).lines().last().unwrap_or(""))) }
+}
+
+fn zst_write(path: &std::path::Path, bytes: &[u8]) {
+    use std::io::Write;
+    let mut e = zstd::Encoder::new(std::fs::File::create(path).unwrap(), 3).unwrap();
+    e.write_all(bytes).unwrap();
+    e.finish().unwrap();
+}
+
+fn zst_read(path: &std::path::Path) -> Vec<u8> {
+    use std::io::Read;
+    let mut d = zstd::Decoder::new(std::fs::File::open(path).unwrap()).unwrap();
+    let mut v = vec![];
+    d.read_to_end(&mut v).unwrap();
+    v
+}
+
+fn check_cli(variant: usize) -> Option<String> {
+    let arg = format!("cli:{variant}");
+    crate::mark(&arg);
+    let dir = std::path::Path::new(env!("CARGO_MANIFEST_DIR")).join("../out/c19");
+    std::fs::create_dir_all(&dir).unwrap();
+    let bytes = std::fs::read("/repo/resources/model.bin").ok()?;
+    let (mut model, _) = Model::read_slice(&bytes).ok()?;
+    // variant 0: the shipped dictionary; 1: empty; 2..: awkward words and comments, one more per variant
+    let dict: Vec<WordWeightRecord> = match variant {
+        0 => model.dictionary().to_vec(),
+        1 => vec![],
+        v => CLI_WORDS[..(v - 1).min(CLI_WORDS.len())].iter().enumerate().map(|(i, (w, c))| {
+            let n = w.chars().count();
+            WordWeightRecord::new(w.to_string(), (0..=n as i32).map(|k| k * 7 - 3 * i as i32).collect(), c.to_string()).unwrap()
+        }).collect(),
+    };
+    model.replace_dictionary(dict);
+    let original = model.to_vec().ok()?;
+    let (m_in, csv, m_out) = (dir.join("in.zst"), dir.join("dict.csv"), dir.join("out.zst"));
+    zst_write(&m_in, &original);
+    let s = |p: &std::path::Path| p.to_string_lossy().to_string();
+    if let Err(e) = run_tool(&["--model-in".into(), s(&m_in), "--dump-dict".into(), s(&csv)]) {
+        return Some(desc(&arg, &format!("manipulate_model --dump-dict fails: {}", e)));
+    }
+    if let Err(e) = run_tool(&["--model-in".into(), s(&m_in), "--replace-dict".into(), s(&csv), "--model-out".into(), s(&m_out)]) {
+        return Some(desc(&arg, &format!("manipulate_model --replace-dict with the unmodified dump fails: {}", e)));
+    }
+    let back = zst_read(&m_out);
+    if back != original {
+        let (a, _) = Model::read_slice(&back).ok()?;
+        let words: Vec<String> = a.dictionary().iter().map(|r| format!("{:?}/{:?}/{:?}", r.get_word(), r.get_weights(), r.get_comment())).collect();
+        return Some(desc(&arg, &format!("dump + replace with the unmodified dump does not reproduce the model byte for byte; dictionary now {:?}", words)));
+    }
+    // a record whose weight count does not match the word length is rejected
+    if variant == 0 {
+        std::fs::write(&csv, "word,weights,comment\n猫,1 2 3,too many\n").unwrap();
+        if run_tool(&["--model-in".into(), s(&m_in), "--replace-dict".into(), s(&csv), "--model-out".into(), s(&m_out)]).is_ok() {
+            return Some(desc(&arg, "a record with 3 weights for a one-character word is accepted by --replace-dict"));
+        }
+    }
+    None
+}
+
 pub fn search() -> Option<String> {
+    if std::env::var("VP_CLI_DIR").is_ok() {
+        for v in 0..(CLI_WORDS.len() + 2) {
+            if let Some(d) = check_cli(v) {
+                return Some(d);
+            }
+        }
+    }
     for w in WORDS {
         for n in 0..8 {
             if let Some(d) = check_record(w, n) {
@@ -129,6 +206,9 @@ fn check_scores(seed: u64) -> Option<String> {
 }
 
 pub fn replay(arg: &str) -> Option<String> {
+    if let Some(v) = arg.strip_prefix("cli:") {
+        return check_cli(v.parse().ok()?);
+    }
     if let Some(seed) = arg.strip_prefix("sc:") {
         return check_scores(seed.parse().ok()?);
     }
